@@ -1,7 +1,6 @@
 (* Lib/MemProofs.v — proofs about Lib/Mem.v (byte memory, AMOs, sequential spec, history acceptor)
    and Lib/MemPipe.v (delay pipes, per-port pipelines under an arbitrary oracle). No axioms. *)
 From PV Require Import Base.Prelude Bits.BitsLemmas Lib.Mem Lib.MemPipe.
-(* -- *)
 Open Scope Z_scope.
 
 (* ================================================================== A. bytes *)
